@@ -16,7 +16,7 @@ Order of events (DESIGN.md 2.8):
 """
 import argparse, glob, hashlib, json, os, re, shutil, subprocess, sys, time
 
-VERIF = "/verif"
+VERIF = os.environ.get("VERIF_ROOT", "/verif")   # relocatable: background runs from a snapshot set VERIF_ROOT
 COQ = os.path.join(VERIF, "coq")
 # Alternative-root mode (used to evaluate seeded changes without touching /repo, several at a
 # time): VERIF_ALT=<dir> where <dir>/repo is a worktree of the library. The harness is copied to
@@ -50,6 +50,9 @@ ENV.update({
     "CGO_ENABLED": "1", "GOCACHE": os.path.join(VERIF, ".cache", "go"),
     "CARGO_NET_OFFLINE": "true", "PIP_NO_INDEX": "1",
 })
+if VERIF != "/verif":
+    ENV.update({"VERIF_DRIVER": os.path.join(VERIF, "bin", "driver"), "VERIF_BRDICT": os.path.join(VERIF, "bin", "brdict.bin"),
+                "VERIF_ROOT": VERIF})
 
 FORBIDDEN = re.compile(
     r"\b(Admitted|admit|Axiom|Axioms|Parameter|Parameters|Conjecture|Conjectures|"
